@@ -12,7 +12,7 @@ from .frontend import AnalysisBroken
 from .lin import LF, Sym, lo_of, hi_of, nonneg, type_range
 from .program import children, strip, walk, locstr, FUNC_KINDS
 
-MAX_DEPTH = 5
+MAX_DEPTH = 9      # frames on the inlining stack, the entry function included; exceeding it is reported, never silent
 MAX_STATES = 400
 BUF_MAX = 2 ** 31 - 1
 
@@ -485,6 +485,11 @@ class Interp:
 
     def ev_InitListExpr(self, n, st):
         out = []
+        if (type_range(n.get('type')) or type_range(n.get('dtype'))) is not None and len(children(n)) <= 1:
+            # braced scalar `std::ptrdiff_t{x}` / `int{}`: the value itself (no narrowing is allowed) / zero
+            if not children(n):
+                return [(VInt(0), st)]
+            return self.ev(children(n)[0], st)
         for vals, s in self.evs(children(n), st):
             out.append((VTuple(vals), s))
         return out
@@ -1042,9 +1047,13 @@ class Interp:
         return out
 
     def want_inline(self, f):
-        if len(self.stack) >= self.max_depth:
-            return False
         if f in self.stack:
+            return False
+        if len(self.stack) >= self.max_depth:
+            # the callee's reads would go unchecked and its result would be unknown: never silently
+            if self.inline is None or self.inline(f):
+                self.unsup(f.node, 'call chain deeper than %d frames, %s not analysed at this site'
+                           % (self.max_depth, f.qualname))
             return False
         if self.inline is not None:
             return self.inline(f)
@@ -1071,23 +1080,17 @@ class Interp:
                 out.append((VTop, s))
             return out
         if name in ('min', 'max') and len(args) == 2:
+            # min(a, b) is a when a <= b and b otherwise (max: the other way round): the two cases
+            # are separate paths, each with the comparison as a fact, exactly like the ternary
+            # `a <= b ? a : b` it abbreviates
             out = []
             for (a, b), s in self.evs(args, st):
                 if isinstance(a, VInt) and isinstance(b, VInt):
-                    v = self.typed_unknown(n, s, wire=a.lf.has_wire() or b.lf.has_wire())
-                    if isinstance(v, VInt):
-                        sy = next(iter(v.lf.t))
-                        la, lb_, ha, hb = s.lo(a.lf), s.lo(b.lf), s.hi(a.lf), s.hi(b.lf)
-                        if name == 'min':
-                            lo = None if la is None or lb_ is None else min(la, lb_)
-                            hi = ha if hb is None else (hb if ha is None else min(ha, hb))
-                        else:
-                            lo = la if lb_ is None else (lb_ if la is None else max(la, lb_))
-                            hi = None if ha is None or hb is None else max(ha, hb)
-                        s.refine(sy, lo, hi)
-                    out.append((v, s))
+                    ts, fs = self.compare('<=', a, b, s, None)
+                    first, second = (a, b) if name == 'min' else (b, a)
+                    out += [(first, t) for t in ts] + [(second, f) for f in fs]
                 else:
-                    out.append((VTop, s))
+                    out.append((self.result_unknown(n, s), s))
             return out
         out = []
         for vals, s in self.evs(args, st):
@@ -1375,6 +1378,12 @@ class Interp:
     def ex_DeclStmt(self, n, st):
         live = [st]
         for d in children(n):
+            if d.get('kind') == 'DecompositionDecl':
+                nxt = []
+                for s in live:
+                    nxt += self.decompose(d, s)
+                live = nxt
+                continue
             if d.get('kind') != 'VarDecl':
                 continue
             init = [x for x in children(d) if not x['kind'].endswith('Attr')]
@@ -1430,6 +1439,42 @@ class Interp:
                     nxt.append(s2)
             live = nxt
         return [Outcome(None, s) for s in live]
+
+    def decompose(self, d, st):
+        """`auto [a, b] = init;` - the bindings name the components of the initialiser: the items
+        of a pair / tuple value positionally, the fields of an aggregate by name.  A component that
+        is not known gets the unconstrained value of its type (a pointer: unknown buffer)."""
+        binds = [b for b in children(d) if b.get('kind') == 'BindingDecl']
+        init = [x for x in children(d) if x.get('kind') != 'BindingDecl' and not x['kind'].endswith('Attr')]
+        is_ref = '&' in (d.get('type') or '')
+        out = []
+        for v, s in (self.ev(init[-1], st) if init else [(VTop, st)]):
+            for i, b in enumerate(binds):
+                ids = [b['id']]
+                bc = children(b)
+                be = strip(bc[0], explicit=True) if bc else {}
+                if be.get('kind') == 'DeclRefExpr':       # tuple-like: the hidden variable holding get<i>()
+                    ids.append((be.get('referencedDecl') or {}).get('id'))
+                item = None
+                if isinstance(v, VTuple) and len(v.items) == len(binds):
+                    item = v.items[i]
+                elif isinstance(v, VObj) and be.get('kind') == 'MemberExpr':
+                    fp = v.path + (be.get('name'),)
+                    if is_ref:
+                        for j in ids:
+                            s.vars.pop((j,), None)
+                            s.alias[j] = fp
+                        continue
+                    item = s.vars.get(fp)
+                for j in ids:
+                    s.alias.pop(j, None)
+                    for key in [key for key in s.vars if key[:1] == (j,)]:
+                        del s.vars[key]
+                    s.sizes.pop((j,), None)
+                    if item is not None and not isinstance(item, VTopT):
+                        s.vars[(j,)] = item
+            out.append(s)
+        return out
 
     def ex_ReturnStmt(self, n, st):
         c = children(n)
@@ -1582,7 +1627,7 @@ class Interp:
                         p = self.path_of(children(callee)[0], st)
                         if p:
                             muts.add(p)
-                elif k == 'VarDecl':
+                elif k in ('VarDecl', 'BindingDecl'):
                     mod.add((x['id'],))
                 if tgt is not None:
                     p = self.path_of(tgt, st)
@@ -1803,24 +1848,61 @@ class Interp:
         if init.get('kind'):
             entry = [o.state for o in self.exec(init, st) if o.status is None]
 
+        trip_fn = self.counted_trip(cond, inc, body)
+        return self.run_loop(n, entry, cond if cond.get('kind') else None,
+                             inc if inc.get('kind') else None, body, trip_fn)
+
+    def ex_WhileStmt(self, n, st):
+        c = children(n)
+        return self.run_loop(n, [st], c[0], None, c[-1], self.counted_trip(c[0], {}, c[-1]))
+
+    def _unit_step(self, x, ivar, st0):
+        """x is `++i`, `i++`, `i += 1` or `i = i + 1` for the variable path ivar"""
+        x = strip(x)
+        k = x.get('kind')
+        c = children(x)
+        if k == 'UnaryOperator' and x.get('opcode') == '++':
+            return self.path_of(c[0], st0) == ivar
+        if k == 'CompoundAssignOperator' and x.get('opcode') == '+=' and self.path_of(c[0], st0) == ivar:
+            r = strip(c[1])
+            return r.get('kind') == 'IntegerLiteral' and int(r['value']) == 1
+        if k == 'BinaryOperator' and x.get('opcode') == '=' and self.path_of(c[0], st0) == ivar:
+            r = strip(c[1], explicit=True)
+            if r.get('kind') == 'BinaryOperator' and r.get('opcode') == '+':
+                rc = children(r)
+                lit = strip(rc[1])
+                return self.path_of(rc[0], st0) == ivar and lit.get('kind') == 'IntegerLiteral' and int(lit['value']) == 1
+        return False
+
+    def counted_trip(self, cond, inc, body):
+        """Trip count `N - i` of a counted loop: the condition is `i < N` / `i != N` (or mirrored),
+        i goes up by exactly one per round - in the increment expression of a `for` whose body leaves
+        i alone, or by the one unconditional top-level step statement of a body that does not write
+        i otherwise and has no `continue` - and N is not changed by the loop."""
         def trip_fn(st0, mod, muts):
-            # for (i = a; i < N; ++i) with i and N not otherwise modified
-            if not cond.get('kind') or not inc.get('kind'):
+            if not cond or not cond.get('kind'):
                 return None
             cn = strip(cond)
-            if cn.get('kind') != 'BinaryOperator' or cn.get('opcode') not in ('<', '!='):
+            if cn.get('kind') != 'BinaryOperator' or cn.get('opcode') not in ('<', '!=', '>'):
                 return None
             cc = children(cn)
+            if cn['opcode'] == '>':
+                cc = [cc[1], cc[0]]
             ivar = self.path_of(cc[0], st0)
             if ivar is None or not isinstance(st0.vars.get(ivar), VInt):
                 return None
             body_mod, body_muts = self.modified_in([body], st0)
-            if ivar in body_mod:
-                return None
-            i2 = strip(inc)
-            if not (i2.get('kind') == 'UnaryOperator' and i2.get('opcode') == '++'
-                    and self.path_of(children(i2)[0], st0) == ivar):
-                return None
+            if inc is not None and inc.get('kind'):
+                if ivar in body_mod or not self._unit_step(inc, ivar, st0):
+                    return None
+            else:
+                stmts = children(body) if body.get('kind') == 'CompoundStmt' else [body]
+                steps = [x for x in stmts if self._unit_step(x, ivar, st0)]
+                others, _ = self.modified_in([x for x in stmts if not any(x is y for y in steps)], st0)
+                if len(steps) != 1 or ivar in others:
+                    return None
+                if any(x.get('kind') == 'ContinueStmt' for x in walk(body)):
+                    return None
             tmp = st0.copy()
             vals = self.ev(cc[1], tmp)
             if len(vals) != 1 or not isinstance(vals[0][0], VInt):
@@ -1835,12 +1917,7 @@ class Interp:
             st0.iv.update({k: v for k, v in tmp.iv.items() if k not in st0.iv})
             st0.sizes.update({k: v for k, v in tmp.sizes.items() if k not in st0.sizes})
             return N - st0.vars[ivar].lf
-        return self.run_loop(n, entry, cond if cond.get('kind') else None,
-                             inc if inc.get('kind') else None, body, trip_fn)
-
-    def ex_WhileStmt(self, n, st):
-        c = children(n)
-        return self.run_loop(n, [st], c[0], None, c[-1])
+        return trip_fn
 
     def ex_DoStmt(self, n, st):
         c = children(n)
